@@ -79,7 +79,7 @@ def run(chk):
         sig = f["signature"]
         reaction = f["case"]["cfg"]["reaction"]
         key = sig if sig == "identical_particle_exchange_mixes_final_states" else f"{sig}:{reaction}"
-        chk.violation(key, f["what"], {"case": f["case"], "search": "search_C02.py"}, True)
+        chk.violation(key, f["what"], {"case": f["case"], "search": "corr_C02.py" if f.get("search") == "corr" else "search_C02.py"}, True)
     if chk.broken and not failures:
         b = chk.broken[0]
         chk.violation("unproved:" + b["item"], f"{b['file']}:{b['item']} no longer checks",
